@@ -326,6 +326,8 @@ def rule_loopvar(c: Ctx) -> RuleResult:
             if not how:
                 # while <list>: every cyclic path pops it
                 t = loop.test
+                if isinstance(t, ast.BoolOp) and isinstance(t.op, ast.And) and isinstance(t.values[0], (ast.Name, ast.Attribute)):
+                    t = t.values[0]          # while <list> and <more>: the loop still ends when the list is empty
                 if isinstance(t, (ast.Name, ast.Attribute)) and stable(t):
                     L = U(t)
                     pops = [n for n in cfg.nodes if n.ast is not None and id(n.ast) in ins and n.kind == "stmt" and any(
